@@ -10,11 +10,29 @@ RUNS = {
         {"name": "K1-codec", "mode": "k1", "budget": (6500, 130000), "nontrivial": r"recv=msg:",
          "keyfn": "k1"},
     ],
+    "C02": [
+        {"name": "K2-framing", "mode": "k2", "budget": (1500, 40000), "nontrivial": r"recv\d+=(msg|proto)", "keyfn": "k2"},
+    ],
 }
 
 NOT_YET = {}
 
 PROPS = {
+    "C02": {
+        "level_text": "Proof: recv1 is a total Lean function enumerating every return of Go's recv(); for any byte string: a bad size field "
+                      "ends the connection after exactly 7 bytes, a well-delimited frame of any content is consumed exactly and its outcome "
+                      "does not depend on what follows, buffers requested are <= min(msize,4MiB)-7, any mix of delimited frames yields one "
+                      "outcome per frame and the loop resynchronises (induction over the frame list), truncated streams never yield a message.",
+        "level_note": "Trusted: Lean kernel (standard axioms), the hand-written model recv1 of transport.go recv() tied by the K2 correspondence "
+                      "(outcome, tag, decoded values and bytes consumed per call, on mutated/truncated/random streams), Go heap observed via "
+                      "runtime.MemStats only (partial: peak allocation is a runtime quantity; the model bounds the sizes passed to make).",
+        "rule": "K2: byte streams = 1..5 valid frames each mutated with probability 1/2 (unknown type, short/long body with adjusted size, bit "
+                "flips, size field around 0/6/7/msize/4MiB/2^32-1, blown-up counts, truncation, random body), pure random bytes, and every "
+                "truncation offset of two-frame streams; msize from {7,8,64,4096,8192,64K,1M,4M,8M,2^32-1}. Non-trivial = at least one call "
+                "returned a message or a protocol error; distinct = distinct (msize, stream).",
+        "assumptions": ["reader delivers the stream then EOF (segmentation is C17)", "allocation monitor: TotalAlloc delta per recv() call <= 64KiB + 3*declared size"],
+        "trusted_base": ["Transport/Recv.lean: hand-written model of p9/transport.go recv()"],
+    },
     "C01": {
         "level_text": "Proof: the generic layout codec round trip (dec (enc v ++ rest) = (norm v, rest)) and the frame round trip "
                       "recv1 (frame m ++ rest) = (msg tag (norm m), rest) are Lean theorems for every layout / every registered "
@@ -58,7 +76,17 @@ def key_generic(m):
     return "%s:%s" % (m["lhs"].split(" ", 1)[0], diff)
 
 
-KEYFNS = {"k1": key_k1}
+def key_k2(m):
+    toks = m["impl_only"] + m["model_only"] + ["?"]
+    for t in toks:
+        if t.startswith("allocbad"):
+            return "k2:allocation-beyond-frame"
+        if "panic" in t:
+            return "k2:panic"
+    return "k2:" + re.sub(r"\d+", "", toks[0].split("=")[0])
+
+
+KEYFNS = {"k1": key_k1, "k2": key_k2}
 
 
 def execute(run, run_corr, sh, BUILD, REPO):
